@@ -214,8 +214,11 @@ deriving Repr, DecidableEq
 
 def textOf (rs : Input) : Bytes := rs.flatMap (·.bytes)
 
-/-- `strings.ToUpper` of the token text, as code points. -/
-def upperCodes (rs : Input) : List Nat := rs.map (·.upper)
+/-- the token text with its ASCII letters folded to upper case, as code points - what `keywordOf`
+(sql/scanner.go) looks up: a word with a rune outside ASCII is no keyword, whatever Unicode case
+mapping would make of it (`strings.ToUpper` maps the dotless i to I and the long s to S: before the
+repair `lımıt` and `ſet` were keywords).  The `upper` field of a rune is no longer consulted. -/
+def upperCodes (rs : Input) : List Nat := rs.map fun r => if 97 ≤ r.code ∧ r.code ≤ 122 then r.code - 32 else r.code
 
 def strCodes (s : String) : List Nat := s.toList.map Char.toNat
 
